@@ -165,10 +165,46 @@ def run_for(run):
     if run.prop == "C08":
         for f in run_deep(run) or []:
             _record_failure(run, "deep", f)
+    if run.prop == "C12":
+        for f in run_purity_x(run) or []:
+            _record_failure(run, "purity_x", f)
     ev["rule"] = ("bounded contract evaluation of the real functions against the executable RFC 9535 mirror (native/mirror.rs); inputs enumerated by "
                   "native/gen.rs: all documents of depth <= 1 over 15 leaves plus curated and seeded random documents of depth <= 3; ASTs built directly "
                   "(never through the parser) from the selector / filter menus, 1-3 segments; a case is non-trivial when the expected or observed nodelist "
                   "is non-empty (per-unit groups: when the contract's expected result is non-empty)")
+
+
+# ---- C12: one process = one history.  The same pairs are evaluated in four orders, each in a fresh process; a pair whose result differs
+# between two processes depends on what was evaluated before it (process-wide or per-thread state).
+def run_purity_x(run, only=None):
+    NONE = 999999999
+    orders = [0, 1, 2, 3]
+    digs = {}
+    for k in orders:
+        res = run_groups(run, ["purity_x"], only=(k, NONE))
+        if not res:
+            return None
+        d = [x for x in res[0].get("samples", []) if isinstance(x, dict) and "digests" in x]
+        if not d:
+            run.undecided.append("purity_x: no digests")
+            return None
+        digs[k] = d[0]["digests"]
+        run.bounded["evaluations"] = run.bounded.get("evaluations", 0) + res[0]["evaluations"]
+    run.bounded.setdefault("bounded_groups", []).append({"group": "purity_x", "evaluations": sum(len(v) for v in digs.values()), "obligations": ["purity.fresh_process"],
+        "bound": "the pairs of the purity group evaluated in 4 orders (forward, backward, document-major, shuffled), each order in its own process; results compared per pair"})
+    fails = []
+    n = len(digs[0])
+    bad = [i for i in range(n) if len({digs[k][i] for k in orders}) > 1]
+    for i in bad[:3]:
+        shown = []
+        for k in orders:
+            res = run_groups(run, ["purity_x"], only=(k, i))
+            shown += [x for x in (res[0].get("samples", []) if res else []) if isinstance(x, dict) and x.get("pair") == i]
+        w = {"pair": i, "qi": 0, "di": i, "text": shown[0]["text"] if shown else None, "doc": shown[0]["doc"] if shown else None,
+             "results_by_order": {str(x["order"]): x["result"] for x in shown}, "orders": "0 forward, 1 backward, 2 document-major, 3 shuffled; each in a fresh process"}
+        fails.append({"obligation": "purity.fresh_process", "features": [], "count": len(bad), "witnesses": [w]})
+        break
+    return fails
 
 
 # ---- C08: deep nesting.  One process per probe (a stack overflow aborts the process; a run-away parse is stopped by RLIMIT_CPU).
@@ -257,6 +293,11 @@ def replay(run, doc) -> int:
     w = doc.get("counterexample") or {}
     only = (w.get("qi", 0), w.get("di", 0))
     run.tier, run.seed = doc.get("tier", "quick"), doc.get("seed", 0)
+    if doc["group"] == "purity_x":
+        fs = run_purity_x(run) or []
+        print(json.dumps(fs, indent=1)[:3000])
+        print("replay:", "violation reproduced on the real code" if fs else "not reproduced")
+        return 1 if fs else 0
     if doc["group"] == "deep":
         fs = run_deep(run, only=only) or []
         hits = [f for f in fs if f["obligation"] in doc["failed_obligations"]]
